@@ -160,7 +160,8 @@ class Fn:
         parts = []
         for lhs, op, rhs in zip(operands, n.ops, operands[1:]):
             if isinstance(op, (ast.In, ast.NotIn)):
-                if self.is_self_attr(rhs, ["overlay", "settings", "peer_flags"]):
+                if self.is_self_attr(rhs, ["overlay", "settings", "peer_flags"]) or \
+                        (isinstance(rhs, ast.Name) and self.env.get(rhs.id, (None, None))[1] == "flags"):
                     s = f"(vInN {self.typed(lhs, 'nat')} peer_flags)"
                 elif isinstance(rhs, (ast.List, ast.Tuple)) and all(
                         isinstance(e, ast.Constant) and type(e.value) is bytes for e in rhs.elts):
@@ -217,6 +218,9 @@ class Fn:
             return f"{pad}vIf {c}\n{pad}  (\n{t}\n{pad}  ) (\n{e}\n{pad}  )"
         if isinstance(s, ast.Assign) and len(s.targets) == 1:
             tgt = s.targets[0]
+            if isinstance(tgt, ast.Name) and self.is_self_attr(s.value, ["overlay", "settings", "peer_flags"]):
+                self.env[tgt.id] = ("peer_flags", "flags")          # local alias of the configured flag set
+                return nxt(ind)
             if isinstance(tgt, ast.Name):
                 v, ty = self.expr(s.value)
                 if ty not in ("nat", "bytes", "bool"):
@@ -401,6 +405,10 @@ class PathFn:
                 if key in self.atoms:
                     c = ("atom", self.atoms[key])
                     return ("not", c) if isinstance(op, ast.NotIn) else c
+            if isinstance(op, (ast.Is, ast.IsNot)) and r == "None" and isinstance(n.left, ast.Name) \
+                    and n.left.id in self.transport_names:
+                c = ("atom", "hasTransport")
+                return c if isinstance(op, ast.IsNot) else ("not", c)
             if isinstance(op, (ast.Is, ast.IsNot)) and r == "None" and l in self.atoms:
                 c = ("atom", self.atoms[l])            # `x is not None` for an atom that is an object-or-None
                 return c if isinstance(op, ast.IsNot) else ("not", c)
@@ -472,13 +480,7 @@ class PathFn:
             return nxt()
         if isinstance(s, ast.If):
             c = self.cond(s.test)
-            if self.opaque_if and c == ("atom", self.opaque_if[0]):
-                for n in ast.walk(ast.Module(body=s.body, type_ignores=[])):
-                    if isinstance(n, ast.Attribute) and n.attr in ("exit_data", "exit_sockets", "sendto", "enable"):
-                        self.err(n, "the own-circuit branch touches the exit path")
-                t = ("act", self.opaque_if[1], ("done",))
-            else:
-                t = self.block(s.body, nxt)
+            t = self.block(s.body, nxt)
             e = self.block(s.orelse, nxt) if s.orelse else nxt()
             return self.ite(c, t, e)
         if isinstance(s, ast.Try):
@@ -601,21 +603,32 @@ def translate_paths():
                acts={f"{ES}.enable()": "enable", f"{ES}.sendto(data, destination)": "sendto"},
                aliasable=[lambda t: t == ES, lambda t: t == f"{ES}.hop", lambda t: t == f"{ES}.hop.address",
                           lambda t: t in ("sock_addr[0]", f"{ES}.hop.address[0]")])
+    p.atoms["self.exit_sockets.get(circuit_id)"] = "knownCircuit"          # object-or-None used as a truth value
+    p.aliasable.append(lambda t: t == "self.exit_sockets.get(circuit_id)")
+    oc = p.canon
+    p.canon = lambda n: oc(n).replace("self.exit_sockets.get(circuit_id).", ES + ".")
     progs.append(("exit_data_prog", f"community.py l.{f.lineno}: TunnelCommunity.exit_data", p.block(f.body, lambda: ("done",))))
     meta["exit_data_aliases"] = p.facts.get("aliases", {})
     srcs_c = [f]
     # --- TunnelCommunity.on_data(self, sock_addr, data, _)
     f = _method(comm, "on_data", ["self", "sock_addr", "data", "_"], COMM)
     CIRC = "self.circuits.get(payload.circuit_id, None)"
+    E2E = f"{CIRC}.ctype in [CIRCUIT_TYPE_RP_DOWNLOADER, CIRCUIT_TYPE_RP_SEEDER]"
     unpack = "self.serializer.unpack_serializable(DataPayload, data, offset=23)"
     own = " and ".join(sorted([CIRC, "payload.org_address", f"sock_addr == {CIRC}.hop.address"]))
     p = PathFn(COMM, "on_data",
-               atoms={own: "ownCircuit", f"payload.dest_address == {NULL_TXT}": "destIsNull"},
-               acts={"self.exit_data(payload.circuit_id, sock_addr, payload.dest_address, payload.data)": "exitData"},
+               atoms={own: "ownCircuit", f"payload.dest_address == {NULL_TXT}": "destIsNull",
+                      "DataChecker.could_be_ipv8(payload.data)": "ipv8Payload", E2E: "e2eCircuit",
+                      "self._prefix == payload.data[:22]": "ownPrefix", "self.get_prefix() == payload.data[:22]": "ownPrefix",
+                      "payload.data[22] == DataPayload.msg_id": "nestedData",
+                      "isinstance(self.endpoint, TunnelEndpoint)": "tunnelEndpoint"},
+               acts={"self.exit_data(payload.circuit_id, sock_addr, payload.dest_address, payload.data)": "exitData",
+                     "self.on_packet_from_circuit(payload.org_address, payload.data, payload.circuit_id)": "deliverOwn",
+                     "self.endpoint.notify_listeners((payload.org_address, payload.data), from_tunnel=True)": "deliverOther",
+                     f"self.on_raw_data({CIRC}, payload.org_address, payload.data)": "deliverRaw"},
                skip_calls=(unpack,),
                aliasable=[lambda t: t in ("payload.circuit_id", "payload.dest_address", "payload.org_address", "payload.data"),
-                          lambda t: t in (CIRC, "self.circuits.get(payload.circuit_id)")],
-               opaque_if=("ownCircuit", "localDeliver"))
+                          lambda t: t in (CIRC, "self.circuits.get(payload.circuit_id)"), lambda t: t == E2E])
     # `.get(x)` and `.get(x, None)` are the same lookup
     orig_canon = p.canon
     p.canon = lambda n: orig_canon(n).replace("self.circuits.get(payload.circuit_id)", CIRC)
@@ -625,13 +638,49 @@ def translate_paths():
     progs.append(("on_data_prog", f"community.py l.{f.lineno}: TunnelCommunity.on_data (after decoding the DataPayload)", tree))
     meta["on_data_aliases"] = p.facts.get("aliases", {})
     srcs_c.append(f)
+    # --- who can reach the exit path: exit_data is called from on_data only; on_data is the cell handler of DataPayload only,
+    #     so the re-dispatch `on_packet_from_circuit` (deliverOwn) reaches on_data exactly for a nested DataPayload
+    callers = set()
+    for fn in comm.body:
+        if isinstance(fn, ast.FunctionDef):
+            for n in ast.walk(fn):
+                if isinstance(n, ast.Attribute) and n.attr == "exit_data" and ast.unparse(n) == "self.exit_data":
+                    callers.add(fn.name)
+    if callers != {"on_data"}:
+        raise TranslatorError(f"{COMM}: self.exit_data is referenced from {sorted(callers)}, expected only on_data")
+    regs = [ast.unparse(n) for n in ast.walk(comm) if isinstance(n, ast.Call) and ast.unparse(n.func) == "self.add_cell_handler"
+            and "self.on_data" in [ast.unparse(a) for a in n.args]]
+    other_refs = [n for fn in comm.body if isinstance(fn, ast.FunctionDef) for n in ast.walk(fn)
+                  if isinstance(n, ast.Attribute) and ast.unparse(n) == "self.on_data"]
+    if regs != ["self.add_cell_handler(DataPayload, self.on_data)"] or len(other_refs) != 1:
+        raise TranslatorError(f"{COMM}: on_data must be registered exactly once, as the cell handler of DataPayload (found {regs}, "
+                              f"{len(other_refs)} references)")
+    opfc = _method(comm, "on_packet_from_circuit", ["self", "source_address", "data", "circuit_id"], COMM)
+    otxt = ast.unparse(opfc)
+    for need in ("msg_id = data[22]", "self.decode_map_private[msg_id]", "handler(source_address, data, circuit_id)"):
+        if need not in otxt:
+            raise TranslatorError(f"{COMM}:{opfc.lineno}: on_packet_from_circuit no longer dispatches by data[22] through decode_map_private")
+    srcs_c.append(opfc)
+    pay = ast.parse((REPO / "ipv8/messaging/anonymization/payload.py").read_text())
+    mid = None
+    for c in pay.body:
+        if isinstance(c, ast.ClassDef) and c.name == "DataPayload":
+            for st in c.body:
+                if isinstance(st, ast.Assign) and ast.unparse(st.targets[0]) == "msg_id" and isinstance(st.value, ast.Constant):
+                    mid = st.value.value
+    if type(mid) is not int:
+        raise TranslatorError("payload.py: DataPayload.msg_id not found")
+    meta["data_msg_id"] = mid
 
     txt = "".join(ast.get_source_segment(es_src, f) or "" for f in srcs) + "".join(ast.get_source_segment(cm_src, f) or "" for f in srcs_c)
     head = ("/-\n  GENERATED by tools/gen_exitpolicy.py (part 2) from exit_socket.py and community.py — do not edit.\n"
             f"  sha1 of the translated method sources: {hashlib.sha1(txt.encode()).hexdigest()[:16]}\n"
             "  Also checked structurally (TranslatorError otherwise): enable() flushes the queue through self.sendto; the resolution\n"
-            "  callback re-enters self.sendto; tunnel_data = overlay.send_data(hop.address, circuit_id, (\"0.0.0.0\", 0), source, data).\n-/\n"
+            "  callback re-enters self.sendto; tunnel_data = overlay.send_data(hop.address, circuit_id, (\"0.0.0.0\", 0), source, data);\n"
+            "  self.exit_data is referenced from on_data only; on_data is registered once, as the cell handler of DataPayload;\n"
+            "  on_packet_from_circuit dispatches by data[22] through decode_map_private.\n-/\n"
             "import Ipv8.C06.IR\n\nnamespace Ipv8.C06.Gen\nopen Ipv8.C06\n\n")
-    body = "\n".join(f"/-- {doc} -/\ndef {name} : Prog :=\n{lean_prog(tree)}\n" for name, doc, tree in progs)
+    body = f"/-- DataPayload.msg_id (payload.py) -/\ndef DATA_MSG_ID : Nat := {mid}\n\n"
+    body += "\n".join(f"/-- {doc} -/\ndef {name} : Prog :=\n{lean_prog(tree)}\n" for name, doc, tree in progs)
     meta["programs"] = {name: tree for name, _, tree in progs}
     return head + body + "\nend Ipv8.C06.Gen\n", meta
